@@ -90,7 +90,9 @@ Definition cls_ambiguous (base : graph) (layers : list (list frag_entry)) : bool
                      (* bonds that can be made: at most the edge order, and every descriptor is used once *)
                      let nu := length (filter (fun x => existsb (compat_legacy x) dv) du) in
                      let nv := length (filter (fun y => existsb (fun x => compat_legacy x y) du) dv) in
-                     (Nat.min (Z.to_nat (match int_order d with Some o => o | None => 1 end)) (Nat.min nu nv) <? pairs)%nat
+                     (* an edge of order 0 (the '.' bond: virtual sites, ionic contacts) makes no bond and uses no descriptor *)
+                     (0 <? match int_order d with Some o => o | None => 1 end)
+                     && (Nat.min (Z.to_nat (match int_order d with Some o => o | None => 1 end)) (Nat.min nu nv) <? pairs)%nat
                  | _, _ => false
                  end) (edges_data base)
       (* or one descriptor of a node is wanted by two of its neighbours (the base-graph edge order,
@@ -102,7 +104,7 @@ Definition cls_ambiguous (base : graph) (layers : list (list frag_entry)) : bool
                                    (2 <=? length (filter (fun v => match node_name base v with
                                                                    | Some nv => existsb (compat_legacy d) (entry_descriptors nv l)
                                                                    | None => false end)
-                                                         (map fst (nadj n))))%nat)
+                                                         (map fst (filter (fun wa => negb (match int_order (snd wa) with Some 0%Z => true | _ => false end)) (nadj n)))))%nat)
                                 (entry_descriptors nu l)
                     | None => false
                     end) base
@@ -129,9 +131,10 @@ Definition mid_edges (base : graph) (l1 : list frag_entry) : list ((Z * Z) * (Z 
                                         ((nk b, u), (nk b, v), match int_order d with Some o => o | None => 1 end))
                                      (edges_data (entry_graph X l1))
                      | None => [] end) base
-  ++ flat_map (fun e => let '(k1, k2, _) := e in
+  ++ flat_map (fun e => let '(k1, k2, d0) := e in
                  match node_name base k1, node_name base k2 with
                  | Some X1, Some X2 =>
+                     if match int_order d0 with Some 0%Z => true | _ => false end then [] else
                      flat_map (fun n1 =>
                        flat_map (fun n2 =>
                          if existsb (fun d1 => existsb (compat_legacy d1) (node_bonding (na n2))) (node_bonding (na n1))
@@ -152,11 +155,12 @@ Definition cls_ambiguous2 (base : graph) (layers : list (list frag_entry)) : boo
                      let pairs := length (filter (fun p => compat_legacy (fst p) (snd p)) (list_prod du dv)) in
                      let cu := length (filter (fun x => existsb (compat_legacy x) dv) du) in
                      let cv := length (filter (fun y => existsb (fun x => compat_legacy x y) du) dv) in
-                     (Nat.min (Z.to_nat o) (Nat.min cu cv) <? pairs)%nat
+                     (0 <? o) && (Nat.min (Z.to_nat o) (Nat.min cu cv) <? pairs)%nat
                  | _, _ => false
                  end) edges
       || existsb (fun x =>
-                    let nbrs := flat_map (fun e => let '(u, v, _) := e in
+                    let nbrs := flat_map (fun e => let '(u, v, o) := e in
+                                            if Z.eqb o 0 then [] else
                                             (if zz_eqb u (fst x) then [v] else []) ++ (if zz_eqb v (fst x) then [u] else [])) edges in
                     existsb (fun d =>
                                (2 <=? length (filter (fun v => match mid_name nodes v with
